@@ -1096,3 +1096,39 @@ func VH_C01_marshal_func() {
 	zzverif.Assert(calls == 2, "Context.Interface uses the InterfaceMarshalFunc set by the application")
 	zzverif.Reach("C01/marshal-func")
 }
+
+// While the writer holds an event's bytes they belong to that event alone: nothing in the event
+// pool refers to them (a writer that logs itself, or another goroutine, would overwrite them).
+type vOwnedWriter struct {
+	aliased bool
+	calls   int
+	ok      bool
+}
+
+func (w *vOwnedWriter) Write(p []byte) (int, error) {
+	w.calls++
+	if vPoolAliases(p) {
+		w.aliased = true
+	}
+	w.ok = vEventOK(p)
+	return len(p), nil
+}
+
+func VH_C01_write_owned() {
+	w := &vOwnedWriter{}
+	l := New(w)
+	if zzverif.Choice(2) == 1 {
+		l = l.With().Str("c", "v").Logger()
+	}
+	switch zzverif.Choice(3) {
+	case 0:
+		l.Info().Str("k", zzverif.String(1)).Msg("m")
+	case 1:
+		l.Log().Dict("d", Dict().Int("i", 1)).Send()
+	case 2:
+		l.Warn().Array("a", Arr().Str("x")).Msgf("x")
+	}
+	zzverif.Assert(w.calls == 1 && w.ok, "the writer receives one well-formed event")
+	zzverif.Assert(!w.aliased, "the bytes handed to the writer are not reachable through the event pool while Write runs")
+	zzverif.Reach("C01/write-owned")
+}
